@@ -98,6 +98,10 @@ class Restriction(Family):
 
     def setup(self, tier):
         self.items = self.builder(tier)
+        self.control_for = {}
+        for it in self.items:
+            if it['kind'] == 'control' and it['label'] not in self.control_for:
+                self.control_for[it['label']] = it
 
     def cases(self, tier):
         items = self.builder(tier)
@@ -127,7 +131,22 @@ class Restriction(Family):
             return Result('control-credited', False)
         o, bad = classify(out, it['allowed'])
         if bad is None:
-            return Result(o, True)
+            # a refused submission must not poison later grading: the clean answer of this configuration (a fresh grader,
+            # same process-wide parser) must still earn its credit right afterwards
+            ctl = self.control_for.get(it['label'])
+            if ctl is not None:
+                out2 = run(it['grader'](), ctl['input'])
+                ok2 = out2[0] == 'ok'
+                if ok2:
+                    res2 = out2[1]
+                    g2 = res2['grade_decimal'] if 'grade_decimal' in res2 else min(e['grade_decimal'] for e in res2['input_list'])
+                    ok2 = abs(g2 - ctl['credit']) <= 1e-9
+                if not ok2:
+                    return Result('control-after-cheat-wrong', True,
+                                  viol(self.name + ':clean-answer-refused-after-a-refused-cheat:' + it['tag'],
+                                       '%s: after the refused input %r the clean answer %r no longer earns %r: %r'
+                                       % (it['label'], it['input'], ctl['input'], ctl['credit'], out2[1]), ctl['credit'], repr(out2[1])[:300]), 2)
+            return Result(o, True, None, 2)
         what, detail = bad
         if what == 'credit':
             sig = ':bypass-earned-credit'
